@@ -640,6 +640,8 @@ def main(tier, seed):
                'shapes bounded by length: int part <= 6, fraction <= 9 digits (property: 4/7); field lengths of parse_hms shapes listed per unit')
     J = [('A', s) for s in shapes_A(tier)] + [('B', (p, k)) for p in range(4) for k in ('float', 'int')] + \
         [('C', s) for s in shapes_C(tier)] + [('D', ())]
+    from pyvc.frames import frame_obligations
+    frame_obligations(run, [_u().round_up_str_num, _u().format_seconds_as_time, _u().parse_hms, _u().str2num])
     results = report.pool_map(_work, J)
     for res in results:
         if '_crash' in res:
